@@ -5,6 +5,15 @@
      services/blockrelay/standard/builderbid.go    (BuilderBid, immediateBuilderBid, cachedBid)
    written from the code, statement by statement.  Definitions only.
 
+   ASSUMPTION (independence): the model describes ONE auction.  Nothing an instance keeps between
+   auctions takes part: the strategies' relayPubkeys map is a cache of parsed keys keyed by the key
+   bytes themselves (the key used is read from the relay configuration / the provider at every
+   bid), and the blockrelay builderBidsCache is keyed by slot, parent hash and proposer key and is
+   overwritten by every auction that ran the strategy.  The harness checks this: the 2nd-4th
+   auction on a used strategy instance and blockrelay service is compared with this same model.
+   The one legitimate memory -- BuilderBid answering from the cache for a key auctioned before --
+   is [serve_cached] below, within one case (modes MAuction / MQuery).
+
    Data: wei values are [N]; scores, offsets, factors and all times (milliseconds since the
    auction was started) are [Z]; [nat] only indexes scripts.  Relays, builders, relay keys,
    headers and bids are named by numbers chosen by the harness. *)
